@@ -93,7 +93,7 @@ def strip_docstring(body: List[ast.stmt]) -> List[ast.stmt]:
 
 def single_defs(fn: ast.AST) -> Dict[str, ast.AST]:
     """names of a function that are bound exactly once, by a plain `name = value` assignment (temporaries), with their value;
-    parameters, loop / with / comprehension targets, augmented and unpacked names are not in the map"""
+    parameters, loop / with / comprehension targets, augmented names and names unpacked from a non-literal are not in the map"""
     count: Dict[str, int] = {}
     val: Dict[str, ast.AST] = {}
     a = getattr(fn, "args", None)
@@ -104,6 +104,13 @@ def single_defs(fn: ast.AST) -> Dict[str, ast.AST]:
         if isinstance(n, ast.Assign) and len(n.targets) == 1 and isinstance(n.targets[0], ast.Name):
             count[n.targets[0].id] = count.get(n.targets[0].id, 0) + 1
             val[n.targets[0].id] = n.value
+        elif isinstance(n, ast.Assign) and len(n.targets) == 1 and isinstance(n.targets[0], (ast.Tuple, ast.List)) and isinstance(n.value, (ast.Tuple, ast.List)) \
+                and len(n.targets[0].elts) == len(n.value.elts) and all(isinstance(t, ast.Name) for t in n.targets[0].elts) \
+                and not any(isinstance(x, ast.Name) and x.id in {t.id for t in n.targets[0].elts} for v in n.value.elts for x in ast.walk(v)):
+            # `a, b = u, v` with values that do not read the names being bound: two plain assignments
+            for t, v in zip(n.targets[0].elts, n.value.elts):
+                count[t.id] = count.get(t.id, 0) + 1
+                val[t.id] = v
         elif isinstance(n, ast.Name) and isinstance(n.ctx, (ast.Store, ast.Del)):
             pass
     for n in ast.walk(fn):
